@@ -155,6 +155,7 @@ func init() {
 			{Name: "random", N: func(c *Ctx) int { return tierN(c, 40000, 6000000) }, Run: c02Random},
 			{Name: "reentrant-pairs", N: c02NestN, Run: c02Nest, Exhaustive: true},
 			{Name: "wide", N: c02WideN, Run: c02Wide, Exhaustive: true},
+			{Name: "pad-large", N: c02PadLargeN, Run: c02PadLargeRun, Exhaustive: true},
 			{Name: "large", N: c02LargeN, Run: c02Large, Exhaustive: true},
 			{Name: "offender-position", N: c02OffN, Run: c02Offender, Exhaustive: true},
 			{Name: "numeric-boundaries", N: c02NumBoundN, Run: c02NumBound, Exhaustive: true},
